@@ -117,39 +117,66 @@ def run(ctx):
                    "%s truncates the copy at %s or later" % (w, off), where=f.body(w).loc if f.body(w) else None, detail=detail)
 
     # ---- C12.b permitted characters ---------------------------------------------
-    ub = f.body("uri::is_u8_uri_ascii")
-    if ub is None:
-        ctx.missing("R-CLS", "is_u8_uri_ascii", "uri::is_u8_uri_ascii")
+    # What check_uri_ascii (public) accepts is computed as a language from its MIR — C* for the class C of permitted
+    # bytes — whatever the test looks like (all / any / loop, closure / helper predicate of any name).  The form-specific
+    # rules remain as a fallback for constructs the shape interpreter has no transfer function for.
+    from props.C14 import ShapeExec, LangFail, lang_diff, fmt_shape
+    cbody = f.body("uri::check_uri_ascii")
+    shapes = None
+    if cbody is not None:
+        try:
+            shapes = ShapeExec(f).language(cbody, 0)
+            diff = lang_diff(shapes, [(("S", frozenset(URI_CLASS_SPEC)),)])
+        except LangFail as e:
+            shapes = None
+            ctx.note("check_uri_ascii: language interpreter gave up (%s); form-specific rules used" % e)
+        except (RecursionError, IndexError, KeyError, TypeError, ValueError) as e:
+            shapes = None
+            ctx.note("check_uri_ascii: language interpreter failed (%s); form-specific rules used" % type(e).__name__)
+    if shapes is not None:
+        ctx.saw_fn(cbody.name)
+        det = {"accepted (union of)": sorted({fmt_shape(x) for x in shapes})[:12],
+               "distinguishing string": None if diff is None else
+               {"bytes": repr(diff[0]), "accepted by the code": diff[1], "in the specification": diff[2]}}
+        ctx.ob("R-CLS", "uri-byte-class", diff is None,
+               "the permitted URI bytes are exactly ! $-; = A-Z _ a-z ~ (no space, control, \" # < > ? [ \\ ] ^ ` { | }, no non-ASCII)",
+               where=cbody.loc, detail=det)
+        ctx.ob("R-CHK", "check_uri_ascii:all-bytes", diff is None,
+               "check_uri_ascii succeeds only if every byte of its argument is a permitted URI byte", where=cbody.loc, detail=det)
     else:
-        cls, pr = absint.byte_class(f, "uri::is_u8_uri_ascii")
-        ctx.ob("R-CLS", "uri-byte-class", cls == URI_CLASS_SPEC and not pr,
-               "is_u8_uri_ascii accepts exactly ! $-; = A-Z _ a-z ~ (no space, control, \" # < > ? [ \\ ] ^ ` { | }, no non-ASCII)",
-               where=ub.loc, detail={"extracted": absint.fmt_class(cls), "problems": pr})
-    cb = f.find_bodies(r"^uri::check_uri_ascii$")
-    if len(cb) != 1:
-        ctx.missing("R-CHK", "check_uri_ascii", "uri::check_uri_ascii")
-    else:
-        cb = cb[0]
-        ctx.saw_fn(cb.name)
-        alls = [c for c in cb.calls() if c.name in ("all", "any") and c.trait == "std::iter::Iterator" and not cb.is_cleanup(c.bb)]
-        ok = False
-        detail = None
-        if len(alls) == 1:
-            a = K.arg_terms(alls[0])
-            # the whole argument (first parameter) is tested: `all(p)` must hold or, the same thing, `any(¬p)` must not;
-            # p may be a closure, a crate function or a std u8 predicate
-            arg_rx = r"(^|⟵)(Iterator::(copied|cloned)\()?%s\)?$" % re.escape(cb.local_name(1) or "_1")
-            if cb.arg_count == 1 and re.search(arg_rx, render(a[0])):
-                from props.C14 import predicate_class
-                ccls, pr = predicate_class(f, strip(a[1]))
-                if alls[0].name == "any" and ccls is not None:
-                    ccls = set(range(256)) - ccls
-                g = pred_matcher(r"::%s$" % alls[0].name, (arg_rx,), positive=(alls[0].name == "all"))
-                mp = MustPass(f, lambda c: False, guard_fn=lambda bd, s, bb: guard_edges(bd, s, bb, g), name="all bytes permitted")
-                ok = ccls == URI_CLASS_SPEC and not pr and mp.holds(cb.name)
-                detail = {"closure_class": absint.fmt_class(ccls), "problems": pr}
-        ctx.ob("R-CHK", "check_uri_ascii:all-bytes", ok,
-               "check_uri_ascii succeeds only if every byte of its argument is a permitted URI byte", where=cb.loc, detail=detail)
+        ub = f.body("uri::is_u8_uri_ascii")
+        if ub is None:
+            ctx.missing("R-CLS", "is_u8_uri_ascii", "uri::is_u8_uri_ascii")
+        else:
+            cls, pr = absint.byte_class(f, "uri::is_u8_uri_ascii")
+            ctx.ob("R-CLS", "uri-byte-class", cls == URI_CLASS_SPEC and not pr,
+                   "is_u8_uri_ascii accepts exactly ! $-; = A-Z _ a-z ~ (no space, control, \" # < > ? [ \\ ] ^ ` { | }, no non-ASCII)",
+                   where=ub.loc, detail={"extracted": absint.fmt_class(cls), "problems": pr})
+        cb = f.find_bodies(r"^uri::check_uri_ascii$")
+        if len(cb) != 1:
+            ctx.missing("R-CHK", "check_uri_ascii", "uri::check_uri_ascii")
+        else:
+            cb = cb[0]
+            ctx.saw_fn(cb.name)
+            alls = [c for c in cb.calls() if c.name in ("all", "any") and c.trait == "std::iter::Iterator" and not cb.is_cleanup(c.bb)]
+            ok = False
+            detail = None
+            if len(alls) == 1:
+                a = K.arg_terms(alls[0])
+                # the whole argument (first parameter) is tested: `all(p)` must hold or, the same thing, `any(¬p)` must not;
+                # p may be a closure, a crate function or a std u8 predicate
+                arg_rx = r"(^|⟵)(Iterator::(copied|cloned)\()?%s\)?$" % re.escape(cb.local_name(1) or "_1")
+                if cb.arg_count == 1 and re.search(arg_rx, render(a[0])):
+                    from props.C14 import predicate_class
+                    ccls, pr = predicate_class(f, strip(a[1]))
+                    if alls[0].name == "any" and ccls is not None:
+                        ccls = set(range(256)) - ccls
+                    g = pred_matcher(r"::%s$" % alls[0].name, (arg_rx,), positive=(alls[0].name == "all"))
+                    mp = MustPass(f, lambda c: False, guard_fn=lambda bd, s, bb: guard_edges(bd, s, bb, g), name="all bytes permitted")
+                    ok = ccls == URI_CLASS_SPEC and not pr and mp.holds(cb.name)
+                    detail = {"closure_class": absint.fmt_class(ccls), "problems": pr}
+            ctx.ob("R-CHK", "check_uri_ascii:all-bytes", ok,
+                   "check_uri_ascii succeeds only if every byte of its argument is a permitted URI byte", where=cb.loc, detail=detail)
 
     def call_sink(res_rx, arg_rx):
         def p(c):
@@ -158,9 +185,10 @@ def run(ctx):
             # named constants and lengths of literals are their values (`bytes[PREFIX.len()..]` is `bytes[8..]`)
             return re.search(arg_rx, render(K.fold_consts(K.arg_terms(c)[0], f.consts))) is not None
         return p
+    PATH_CHECK = "^(%s)$" % "|".join(re.escape(n) for n in path_checkers(f))
     reqs = [
         ("uri::Rsync::from_bytes", "check_uri_ascii(bytes)", call_sink(r"^uri::check_uri_ascii$", r"^bytes$")),
-        ("uri::Rsync::from_bytes", "check_path(bytes[8..])", call_sink(r"^uri::Rsync::check_path$", r"^Index::index\(bytes, ops::RangeFrom::RangeFrom\{start: 8\}\)$")),
+        ("uri::Rsync::from_bytes", "check_path(bytes[8..])", call_sink(PATH_CHECK, r"^(Index::index\(bytes, ops::RangeFrom::RangeFrom\{start: 8\}\)|slice::split_at\(bytes, 8\)\.1|Bytes::slice\(bytes, ops::RangeFrom::RangeFrom\{start: 8\}\))$")),
         ("uri::Https::from_bytes", "check_uri_ascii(bytes)", call_sink(r"^uri::check_uri_ascii$", r"^bytes$")),
         ("uri::Https::join", "check_uri_ascii(path)", call_sink(r"^uri::check_uri_ascii$", r"^path$")),
     ]
@@ -180,10 +208,14 @@ def run(ctx):
         ctx.missing("R-CHK", "Rsync::join", "uri::Rsync::join")
     else:
         ctx.saw_fn(jb.name)
-        empty = pred_matcher(r"is_empty$", (r"^path$",))
+        from props.C14 import value_edges
+        from engine.rules import any_of
+        is_empty = pred_matcher(r"is_empty$", (r"^path$",))
+        empty_edges = any_of(lambda bd, s_, bb: guard_edges(bd, s_, bb, is_empty),
+                             lambda bd, s_, bb: value_edges(f, bd, s_, bb, r"(^|::)len\(path\)$", 0))
         for what, sink in (("check_uri_ascii(path)", call_sink(r"^uri::check_uri_ascii$", r"^path$")),
-                           ("check_path(path)", call_sink(r"^uri::Rsync::check_path$", r"^path$"))):
-            mp = MustPass(f, sink, guard_fn=lambda bd, s, bb: guard_edges(bd, s, bb, empty), name=what)
+                           ("check_path(path)", call_sink(PATH_CHECK, r"^path$"))):
+            mp = MustPass(f, sink, guard_fn=empty_edges, name=what)
             ok = mp.holds(jb.name)
             ctx.ob("R-CHK", "Rsync::join→%s" % what, ok,
                    "Rsync::join succeeds only after %s, or with an empty path (returning a clone of self)" % what,
@@ -192,7 +224,7 @@ def run(ctx):
         oc = outcome(jb)
         from engine.rules import success_values
         vals = [render(t) for _, _, t in success_values(jb, oc)]
-        okv = all(v in ("result::Result::Ok{0: self}",) or v.startswith("result::Result::Ok{0: uri::Rsync::Rsync{") for v in vals) and len(vals) == 2
+        okv = bool(vals) and all(re.match(r"^result::Result::Ok\{0: (\w+⟵)?self\}$", v) or v.startswith("result::Result::Ok{0: uri::Rsync::Rsync{") for v in vals)
         ctx.ob("R-FLOW", "Rsync::join:results", okv, "Rsync::join returns either a clone of self (empty path) or the extended URI",
                where=jb.loc, detail=vals)
     # scheme guards
@@ -328,13 +360,31 @@ def run(ctx):
     # ---- module comparison used by relative_to / is_parent_of ---------------------
     rb = f.body("uri::Rsync::relative_to")
     if rb is not None:
-        g = pred_matcher(r"Rsync::eq_module$", (r"^self$", r"^other$"))
+        mods = [n for n, bd in f.bodies.items() if bd.rec.get("impl_adt") == "uri::Rsync" and bd.arg_count == 2 and
+                "{closure" not in n and bd.ret_ty == "bool" and not is_derived(bd) and
+                any(c.name == "eq_ignore_ascii_case" for x in [bd] + [f.body(k) for k in f.children(n) if f.body(k)] for c in x.calls()) and
+                any(c.res == n for c in rb.calls())]
+        g = pred_matcher("^(%s)$" % "|".join(re.escape(n) for n in mods) if mods else r"Rsync::eq_module$", (r"^self$", r"^other$"))
         mp = MustPass(f, lambda c: False, guard_fn=lambda bd, s, bb: guard_edges(bd, s, bb, g), name="same module")
         # relative_to returns Option: None = failure
         ok = mp.holds(rb.name)
         ctx.ob("R-GRD", "Rsync::relative_to:same-module", ok, "relative_to returns Some only for URIs of the same module",
                where=rb.loc, detail=None if ok else K.why(f, mp, rb.name))
 
+
+
+
+def path_checkers(f):
+    """The function(s) that answer uri::Error::DotSegments — the segment check of rsync paths, whatever it is called."""
+    out = set()
+    for n, bd in f.bodies.items():
+        if is_derived(bd) or not (bd.file or "").endswith("uri.rs"):
+            continue
+        for blk in bd.blocks:
+            for st in blk["stmts"]:
+                if st["s"] == "assign" and st["rv"]["r"] == "agg" and st["rv"].get("adt") == "uri::Error" and st["rv"].get("variant") == "DotSegments":
+                    out.add(root_fn(f, n))
+    return sorted(out) or ["uri::Rsync::check_path"]
 
 
 _SHRINK = {"truncate": 1, "split_off": 1}
